@@ -56,7 +56,8 @@ func JSONNumbers() []string {
 
 // JSONNumberContexts: how a number is terminated.
 var JSONNumberContexts = [][2]string{
-	{"", ""}, {"", " "}, {" ", "\n"}, {"[", "]"}, {"[", ",1]"}, {"[", " ]"}, {`{"a":`, "}"}, {`{"a":`, `,"b":2}`}, {"[0,", "\t]"}, {"[[", "]]"},
+	// (ordered so that a scope of the first three contexts has: end of input, a following object member, a following element)
+	{"", ""}, {`{"a":`, `,"b":2}`}, {"[", ",1]"}, {"[", "]"}, {`{"a":`, "}"}, {"", " "}, {" ", "\n"}, {"[", " ]"}, {"[0,", "\t]"}, {"[[", "]]"},
 }
 
 // JSONDocs are representative documents for the whitespace sweep; tokens are separated by \x00.
